@@ -1,6 +1,7 @@
 #include <fault/util.hpp>
 
 #include <yaclib/fault/injector.hpp>
+#include <yaclib/fault/verif.hpp>
 
 #include <yaclib_std/thread>
 
@@ -14,6 +15,11 @@ void Injector::MaybeInject() noexcept {
   if (NeedInject()) {
 #if YACLIB_FAULT == 2
     ++sInjectedCount;
+#  ifdef YACLIB_VERIF
+    if (auto* f = verif::GetHooks().on_inject) {
+      f(sInjectedCount);
+    }
+#  endif
     yaclib_std::this_thread::yield();
 #elif defined(_MSC_VER)
     yaclib_std::this_thread::yield();
